@@ -165,3 +165,41 @@ Print Assumptions reparse_equal_items.
 (* non-vacuity of wf_item: a string item with quotes and a newline is well-formed *)
 Example wf_item_example : forall sepok, wf_item sepok (IStr [97; 34; 10; 39; 92; 92; 53]%N).
 Proof. intros sepok. vm_compute. reflexivity. Qed.
+
+(* ------------------------------------------------------------------ the value grammar discharged by the PP engine *)
+From CssV Require Import RoundtripPP.
+
+(* value_grammar_faithful - a premise of reparse_equal_items above ("prodparser, unmodelled") - PROVED for the
+   instantiation vparse := RoundtripPP.vparse_pp = PP's PropertyValue parse (ProdParserValue.build_value: the regenerated
+   PropertyValue production tree run by the ProdParser interpreter, constructor, object read-back) on the (type, value)
+   view of the tokens, for the fragment PP covers that C03 items express exactly: a non-empty list of STRING items
+   (pp_str: representable, no double quote, no trailing backslash, so that the token body is the value for either quote
+   kind) and IDENT items (not a colour keyword, without ',' '/' and not ';'), one " " S token apart.             *)
+Theorem value_grammar_faithful_pp : forall (sepok : str -> Prop) l ts,
+  Forall2 (yields sepok) l (filter non_S ts) -> spaced ts -> Forall (pp_item sepok) l -> l <> [] ->
+  vparse_pp ts = Some l.
+Proof. exact value_grammar_faithful_pp_lemma. Qed.
+Print Assumptions value_grammar_faithful_pp.
+
+(* the value round trip with NO hypothesis about the value grammar: the only premise left is the one about the
+   serializer's `Out` (C05): the tokens of the written text are what the items yield (for strings: PROVED to be the
+   STRING token with the value, string_roundtrip), exactly one " " S token apart *)
+Theorem reparse_equal_items_pp : forall (sepok : str -> Prop) (out : list str -> str),
+  (forall l, Forall (pp_item sepok) l -> l <> [] ->
+     exists ts, tokenize true false (ser_items out l) = Some ts /\
+                Forall2 (yields sepok) l (filter non_S ts) /\ spaced ts) ->                  (* out_tokens_spaced (C05) *)
+  forall l, Forall (pp_item sepok) l -> l <> [] ->
+    parse_items vparse_pp (ser_items out l) = Some l /\
+    option_map (ser_items out) (parse_items vparse_pp (ser_items out l)) = Some (ser_items out l).
+Proof. exact reparse_equal_items_pp_all_lemma. Qed.
+Print Assumptions reparse_equal_items_pp.
+
+(* non-vacuity, hypothesis-free: the value  "a\a \g" serif  - a string with a newline escape and a simple escape (value:
+   a, LF, backslash, g) and an identifier, joined by one space: its items are PP items, and tokenizing the written text,
+   running PP's PropertyValue parse and reading the objects back gives exactly these items *)
+Example reparse_equal_items_pp_example :
+  ser_items out_sp ex_items = [34; 97; 92; 97; 32; 92; 103; 34; 32; 115; 101; 114; 105; 102]%N /\
+  Forall (pp_item ex_sepok) ex_items /\
+  parse_items vparse_pp (ser_items out_sp ex_items) = Some ex_items.
+Proof. exact reparse_equal_items_pp_example_lemma. Qed.
+Print Assumptions reparse_equal_items_pp_example.
